@@ -3353,8 +3353,10 @@ class Parameters:
                 # dealing with object and it's been set on this object
                 value = cls_or_slf._param__private.values[name]
             else:
-                # dealing with class or isn't set on the object
-                value = param_obj.default
+                # dealing with class or isn't set on the object: attribute
+                # access falls back to the class Parameter's default, which a
+                # per-instance Parameter object does not follow
+                value = self_.cls.param.objects('existing')[name].default
 
         return value
 
